@@ -29,7 +29,8 @@ impl BufferParser for Parser {
     fn print_char(&mut self, buf: &mut Buffer, current_layer: usize, caret: &mut Caret, ch: char) -> EngineResult<CallbackAction> {
         if self.got_escape {
             self.got_escape = false;
-            buf.print_value(current_layer, caret, ch as u16);
+            // an escaped control code is an ordinary character: bit 7 is its video state, not the one of the cell before
+            print_glyph(buf, current_layer, caret, ch);
             return Ok(CallbackAction::Update);
         }
 
@@ -50,21 +51,23 @@ impl BufferParser for Parser {
             '\u{00FD}' => return Ok(CallbackAction::Beep),
             '\u{00FE}' => caret.del(buf, current_layer),
             '\u{00FF}' => caret.ins(buf, current_layer),
-            _ => {
-                let mut ch = ch as u16;
-                if ch > 0x7F {
-                    ch -= 0x80;
-                    caret.attribute.set_foreground(0);
-                    caret.attribute.set_background(7);
-                } else {
-                    caret.attribute.set_foreground(7);
-                    caret.attribute.set_background(0);
-                }
-                buf.print_value(current_layer, caret, ch);
-            }
+            _ => print_glyph(buf, current_layer, caret, ch),
         }
         Ok(CallbackAction::Update)
     }
+}
+
+fn print_glyph(buf: &mut Buffer, current_layer: usize, caret: &mut Caret, ch: char) {
+    let mut ch = ch as u16;
+    if ch > 0x7F {
+        ch -= 0x80;
+        caret.attribute.set_foreground(0);
+        caret.attribute.set_background(7);
+    } else {
+        caret.attribute.set_foreground(7);
+        caret.attribute.set_background(0);
+    }
+    buf.print_value(current_layer, caret, ch);
 }
 
 lazy_static::lazy_static! {
